@@ -103,9 +103,21 @@ def run(seed=0, tier="quick"):
         rows.append((cfl, sim.dx, nu, tol, umax, dim, prefac))
         impl_dt.append(float(dt))
         meta.append({"class": cname, "dtype": real_t.__name__, "dim": dim, "nu": nu, "cfl": cfl, "prefac": prefac, "flow_density": float(getattr(sim, "flow_density", 1.0)),
-                     "velocity": kind, "grid": list(sim.grid_size), "dt": float(dt)})
+                     "velocity": kind, "grid": list(sim.grid_size), "dt": float(dt), "evaluation": 1})
+        # a second evaluation on the same simulator at the same time level after the velocity changed (a body moved, a user set the
+        # field): the answer is a function of the CURRENT velocity
+        r2 = impl.rng(seed, "dt-second", len(rows))
+        sim.velocity_field[...] = (r2.normal(size=sim.velocity_field.shape) * float(10 ** r2.uniform(-1, 2))).astype(real_t)
+        with warnings.catch_warnings():
+            warnings.simplefilter("ignore")
+            with np.errstate(all="ignore"):
+                dt2 = sim.compute_stable_timestep(dt_prefac=prefac)
+        umax2 = float(np.max(np.sum(np.abs(sim.velocity_field.astype(np.float64)), axis=0)))
+        rows.append((cfl, sim.dx, nu, tol, umax2, dim, prefac))
+        impl_dt.append(float(dt2))
+        meta.append({**meta[-1], "velocity": "random (set after the first evaluation, same time level)", "dt": float(dt2), "evaluation": 2})
     model = _model(rows)
-    res = {"ok": True, "cases": len(cs), "samples": meta[:3], "name": "Model.stableDtPrefac vs compute_stable_timestep"}
+    res = {"ok": True, "cases": len(rows), "samples": meta[:3], "name": "Model.stableDtPrefac vs compute_stable_timestep"}
     for m, a, b in zip(meta, impl_dt, model):
         eps = float(np.finfo(np.float32 if m["dtype"] == "float32" else np.float64).eps)
         if not (np.isfinite(a) and abs(a - b) <= 64 * eps * max(abs(a), abs(b))):
@@ -146,6 +158,19 @@ def oracle(seed=0, tier="quick", aimed=None):
             bad = f"diffusion limit exceeded: nu*dt/dx^2 = {nu * dt1 / dx**2} > {0.9 / (2 * dim)}"
         if bad:
             return {"ok": False, "cases": cases, "samples": samples, "failing_input": {"oracle": "dt_limits", "what": bad, **info}}
+        # history: the velocity is raised at the same time level (a user or a coupling sets it) and the step is asked for again
+        r2 = impl.rng(seed, "dt-oracle-second", cases)
+        sim.velocity_field[...] = (np.abs(sim.velocity_field) * 40 + r2.uniform(0.5, 2.0, size=sim.velocity_field.shape)).astype(real_t)
+        with warnings.catch_warnings():
+            warnings.simplefilter("ignore")
+            with np.errstate(all="ignore"):
+                dt2 = float(sim.compute_stable_timestep(dt_prefac=1.0))
+        umax2 = float(np.max(np.sum(np.abs(sim.velocity_field.astype(np.float64)), axis=0)))
+        cases += 1
+        if not (np.isfinite(dt2) and dt2 > 0) or dt2 * umax2 / dx > cfl * (1 + 64 * eps):
+            return {"ok": False, "cases": cases, "samples": samples, "failing_input": {
+                "oracle": "dt_limits", "what": f"second evaluation at the same time level after the velocity was raised: CFL limit exceeded: dt*umax/dx = {dt2 * umax2 / dx} > cfl = {cfl} "
+                                               f"(first evaluation returned {dt1}, second {dt2})", **info, "history": ["compute_stable_timestep", "velocity_field raised", "compute_stable_timestep"]}}
         if len(samples) < 2:
             samples.append({"oracle": "dt_limits", **info})
     # maximum principle with r at the admissible limit
